@@ -205,7 +205,8 @@ func (w *cWorld) newLease() {
 		case 3:
 			li.mask = [][]byte{{255, 255, 255, 255}, {255, 255, 255, 254}, {255, 255, 255, 252}, {128, 0, 0, 0}, {255, 255, 255}, {255, 255, 255, 0, 0}}[r2.Intn(6)]
 		case 4: // the address is the first or the last of its (class-default or given) subnet; or the server names itself
-			li.yiaddr = []uint32{0x0a000000, 0x0affffff, 0xc0a80100, 0xc0a801ff, w.srvIP}[r2.Intn(5)]
+			// (... or an address whose two halves add up beyond 16 bits: a carry in the pseudo-header sum of every renewal sent from it)
+			li.yiaddr = []uint32{0x0a000000, 0x0affffff, 0xc0a80100, 0xc0a801ff, w.srvIP, 0xc0a86407, 0xcb00714d, 0xac10c809, 0xfffefffe}[r2.Intn(9)]
 		case 5:
 			li.domain = [][]byte{[]byte("example.org."), []byte("example.org\x00"), []byte("."), []byte("a..b"), {0}, []byte("xn--bcher-kva.example")}[r2.Intn(6)]
 		case 6:
